@@ -8,6 +8,9 @@ Open Scope Z_scope.
 Theorem C14_constants_in_range :
   0 < HAS_EXPIRED_den /\ HAS_EXPIRED_den <= HAS_EXPIRED_num /\ HAS_EXPIRED_num <= 2 * HAS_EXPIRED_den /\ 0 <= MSG_GRACE_us.
 Proof. exact has_expired_range. Qed.
+(* "a few seconds' grace": not more than ten *)
+Theorem C14_grace_is_a_few_seconds : MSG_GRACE_us <= 10 * 1000000.
+Proof. vm_compute. discriminate. Qed.
 
 (* the stored message for a code is the LAST relevant one, whatever is interleaved *)
 Theorem C14_latest_wins : forall me code ms st,
